@@ -196,7 +196,18 @@ cdef int not_in_tuple() noexcept:
     return dv_a() not in (dv_b(), dv_c(), dv_d())
 '''
 
-CATALOGUE = EXTERN + BODY
+# membership in a C array: the left operand is evaluated once, not once per item (the emitted loop is unrolled: 3 items)
+ABODY = '''
+cdef int in_carray(int* arr) noexcept:
+    return dv_a() in arr[:3]
+
+cdef int not_in_carray(int* arr) noexcept:
+    return dv_b() not in arr[:3]
+'''
+AFUNCS = ["in_carray", "not_in_carray"]
+ALEN = 3
+
+CATALOGUE = EXTERN + BODY + ABODY
 FUNCS = re.findall(r"^cdef int (\w+)\(\) noexcept:", BODY, re.M)
 
 
@@ -300,6 +311,17 @@ class _Ref:
             if isinstance(n.ops[0], ast.NotIn):
                 hit = (not hit) if self.mode == "py" else z3.Not(hit)
             return self.b2i(hit), tr
+        if (isinstance(n, ast.Compare) and len(n.ops) == 1 and isinstance(n.ops[0], (ast.In, ast.NotIn)) and isinstance(n.comparators[0], ast.Subscript)
+                and isinstance(n.comparators[0].value, ast.Name) and isinstance(env.get(n.comparators[0].value.id), list)):
+            # x in arr[:k] on a C array: the left operand ONCE, then a scan of the items (no calls)
+            left, tr = self.ev(n.left, env, tr)
+            items = env[n.comparators[0].value.id]
+            hit = False if self.mode == "py" else z3.BoolVal(False)
+            for v in items:
+                hit = (hit or left == v) if self.mode == "py" else z3.Or(hit, left == v)
+            if isinstance(n.ops[0], ast.NotIn):
+                hit = (not hit) if self.mode == "py" else z3.Not(hit)
+            return self.b2i(hit), tr
         if isinstance(n, ast.Compare):
             left, tr = self.ev(n.left, env, tr)
             return self.chain(left, list(zip(n.ops, n.comparators)), env, tr)
@@ -369,7 +391,7 @@ class _Ref:
 
 
 def _fn_ast(name):
-    src = pyref.python_source(BODY)
+    src = pyref.python_source(BODY + ABODY)
     tree = ast.parse(src)
     fn = [n for n in tree.body if isinstance(n, ast.FunctionDef) and n.name == name]
     if not fn:
@@ -377,10 +399,10 @@ def _fn_ast(name):
     return fn[0], src
 
 
-def expected(name):
+def expected(name, env=None):
     """[(condition, value, (trace array, trace length))] of catalogue function `name` for symbolic leaf values"""
     fn, _src = _fn_ast(name)
-    return _Ref("z3").run(fn.body, {}, (z3.K(z3.IntSort(), z3.IntVal(-1)), z3.IntVal(0)))
+    return _Ref("z3").run(fn.body, env or {}, (z3.K(z3.IntSort(), z3.IntVal(-1)), z3.IntVal(0)))
 
 
 # ------------------------------------------------------------------------------------------------ the C side
@@ -414,7 +436,8 @@ def _post(name):
         arr = e.mem.get("ghost.trace", z3.K(z3.IntSort(), z3.IntVal(-1)))
         cnt = e.mem.get("ghost.trace_n", z3.IntVal(0))
         cases = []
-        for pc, val, (xarr, xcnt) in expected(name):
+        env = {"arr": [z3.Select(e.mem0["arr"], i) for i in range(ALEN)]} if name in AFUNCS else {}
+        for pc, val, (xarr, xcnt) in expected(name, env):
             same = And(cnt == xcnt, *[Implies(i < xcnt, z3.Select(arr, i) == z3.Select(xarr, i)) for i in range(MAXTRACE)])
             cases.append(Implies(pc, And(same, e.result == val)))
         return And(e.err == 0, *cases)
@@ -427,8 +450,14 @@ def _native(model, ob=None, only=None):
     import subprocess
     m = re.match(r"L3order\.(\w+)/", getattr(ob, "name", "") or "")
     funcs = [m.group(1)] if m and m.group(1) in FUNCS else list(FUNCS)      # the function of the failed obligation only
-    wrappers = "".join("\ndef py_%s():\n    del LOG[:]\n    r = %s()\n    return r, list(LOG)\n" % (f, f) for f in funcs)
-    text = LOGGING + BODY + wrappers
+    if m and m.group(1) in AFUNCS:
+        funcs = [m.group(1)]
+    elif not m:
+        funcs = funcs + AFUNCS
+    wrappers = "".join("\ndef py_%s():\n    del LOG[:]\n    r = %s()\n    return r, list(LOG)\n" % (f, f) for f in funcs if f not in AFUNCS)
+    wrappers += "".join("\ndef py_%s():\n    cdef int a[3]\n    a[0] = VALS[2]; a[1] = VALS[3]; a[2] = VALS[4]\n    del LOG[:]\n    r = %s(a)\n"
+                        "    return r, list(LOG)\n" % (f, f) for f in funcs if f in AFUNCS)
+    text = LOGGING + BODY + ABODY + wrappers
     try:
         ctext, cfile = cextract.compile_pyx(text, name="dvorderrep")
     except Exception as ex:
@@ -438,9 +467,10 @@ def _native(model, ob=None, only=None):
     p = subprocess.run(["clang", "-shared", "-fPIC", "-O0", "-w", "-I" + cextract.PY_INCLUDE, cfile, "-o", so], capture_output=True, text=True)
     if p.returncode != 0:
         return {"confirmed": False, "note": "build failed " + p.stderr[-300:]}
-    pysrc = pyref.python_source(BODY)
+    pysrc = pyref.python_source(BODY + ABODY)
     code = r'''
 import sys, itertools; sys.path.insert(0, %r); import dvorderrep as m
+AF = %r
 LOG = []; VALS = [0] * 5
 def leaf(i):
     def f(): LOG.append(i); return VALS[i]
@@ -454,12 +484,12 @@ for vals in itertools.product((-2, 0, 1, 3), repeat=5):
     VALS[:] = vals; m.VALS[:] = vals
     for name in %r:
         del LOG[:]
-        want = (int(ns[name]()), list(LOG))
+        want = (int(ns[name](*([[vals[2], vals[3], vals[4]]] if name in AF else []))), list(LOG))
         got = getattr(m, "py_" + name)()
         got = (int(got[0]), got[1])
         if got != want: bad.append((name, vals, got, want))
 print(bad[:3]); print(len(bad))
-''' % (d, pysrc, funcs)
+''' % (d, AFUNCS, pysrc, funcs)
     r = subprocess.run(["/venv/bin/python", "-c", code], capture_output=True, text=True, timeout=300)
     out = r.stdout.strip().splitlines()
     ok = len(out) == 2 and out[0] == "[]"
@@ -486,6 +516,15 @@ def units(tier):
         u.replay = _native
         u.concrete_search = lambda ob, regions=(): _native({}, ob)
         us.append(u)
+    for name in AFUNCS:
+        u = L3Unit("L3order.%s" % name, props, CATALOGUE, name, callees=callees, arrays={"arr": ("int", ALEN)},
+                   ensures=[("the left operand of a C-array membership test is evaluated once, before the scan; the value is Python's", _post(name))],
+                   options={"merge": False, "unroll": {0: ALEN}},
+                   subject={"mechanism": "Optimize.IterationTransform.visit_PrimaryCmpNode (x in c_array / ptr[:n] as a loop)"})
+        u.exec_cls = CExecTrace
+        u.replay = _native
+        u.concrete_search = lambda ob, regions=(): _native({}, ob)
+        us.append(u)
     return us
 
 
@@ -494,7 +533,7 @@ REGIONS = {}
 
 def side_checks(prop, tier, seed, kf_entries):
     """the reference evaluator against CPython: exec of the catalogue text with logging leaves, all leaf values in a grid"""
-    pysrc = pyref.python_source(BODY)
+    pysrc = pyref.python_source(BODY + ABODY)
     LOG, VALS = [], [0] * 5
 
     def leaf(i):
@@ -513,11 +552,12 @@ def side_checks(prop, tier, seed, kf_entries):
     first = None
     for vals in itertools.product((-2, 0, 1, 3), repeat=5):
         VALS[:] = vals
-        for name in FUNCS:
+        for name in FUNCS + AFUNCS:
             del LOG[:]
-            want = (int(ns[name]()), list(LOG))
+            arr = [vals[2], vals[3], vals[4]]
+            want = (int(ns[name](*([arr] if name in AFUNCS else []))), list(LOG))
             fn, _ = _fn_ast(name)
-            outs = _Ref("py", list(vals)).run(fn.body, {}, ([], 0))
+            outs = _Ref("py", list(vals)).run(fn.body, {"arr": arr} if name in AFUNCS else {}, ([], 0))
             got = [(int(v), tr[0]) for pc, v, tr in outs if pc]
             n += 1
             if got != [want]:
